@@ -141,7 +141,7 @@ func runCase(entry string, mode parser.Mode, fname string, offset int, src []byt
 			node = x
 		}
 		// on bailout the expression stays nil and err != nil: an AST is only required when err == nil
-	case "exprex", "exprexS":
+	case "exprex":
 		file := fset.AddFile(fname, -1, len(src))
 		x, el := parser.ParseExprEx(file, src, offset, mode)
 		r.Expr = x
@@ -164,12 +164,9 @@ func runCase(entry string, mode parser.Mode, fname string, offset int, src []byt
 			r.Outcome, r.Detail = "ERRTYPE", "non-nil empty ErrorList"
 			return
 		}
-		if entry != "exprex" && (!sort.IsSorted(el) || !posSorted(el)) {
+		if !sort.IsSorted(el) || !posSorted(el) {
 			r.Outcome, r.Detail = "UNSORTED", el.Error()
 			return
-		}
-		if entry == "exprex" && !posSorted(el) {
-			r.Walk = "exprex-unsorted" // recorded, not judged: see the deterministic exprexS witnesses
 		}
 	}
 	if node == nil {
@@ -693,9 +690,9 @@ func fuzz(args []string) {
 		}
 		cases = append(cases, fcase{key: "det:" + c.name + ":gox:0", gen: "det-crafted", entry: "entry", fi: 1, src: []byte(c.src), det: true})
 	}
-	// ParseExprEx documents a sorted list but returns p.errors as recorded (strict entry: judged)
-	for _, c := range []struct{ name, src string }{{"exprex-unsorted-1", "\xc1\xa8`"}, {"exprex-sorted-1", "1 + )"}} {
-		cases = append(cases, fcase{key: "det:" + c.name, gen: "det-crafted", entry: "exprexS", src: []byte(c.src), det: true})
+	// regression inputs of the repaired ParseExprEx defect (the list was returned unsorted)
+	for _, c := range []struct{ name, src string }{{"exprex-sorted-regress-1", "\xc1\xa8`"}, {"exprex-sorted-2", "1 + )"}} {
+		cases = append(cases, fcase{key: "det:" + c.name, gen: "det-crafted", entry: "exprex", src: []byte(c.src), det: true})
 	}
 	for _, cf := range corpus {
 		ent, fi := entryFor(cf.rel)
